@@ -44,6 +44,11 @@ PROPS = {
         "shards": {"quick": 8, "thorough": 16}, "timeout": {"quick": 600, "thorough": 10000},
         "floors": {"quick": {"http_requests": 5000, "slice_meter_commands_seen": 1000}, "thorough": {"http_requests": 250000}},
     },
+    "C20": {
+        "kind": "py", "module": "c20check", "level": "exploration",
+        "rule": "seeded histories (6-40 events) of RTM_NEWROUTE / RTM_DELROUTE / RTM_NEWNEIGH over 2 interfaces x 3 next hops x 4 prefixes (default route included), several routes per next hop, deletion of unresolved routes, delivered through the real netlink handler methods of conf/route_control.py; after EVERY event the module graph rebuilt from the calls received by a BESS-like recording client is compared with a reference model of kernel routes and neighbours; distinct = distinct <length, event-kind set, first 8 event kinds>",
+        "floors": {"quick": {"netlink_events_delivered": 20000, "graph_comparisons": 20000}, "thorough": {"netlink_events_delivered": 1000000}},
+    },
     "C10": {
         "test": "TestVerif_C10", "level": "exploration",
         "rule": "scenario = {0..n associations (some >100)} x {0-3 sessions} x trigger per association {release, silence->read timeout(+heartbeat failure), unanswered heartbeats, live} x requests in flight x datapath reply delay x PFCPIface.Stop() at a drawn offset (+-3.5 ms around the coinciding triggers), fresh agent per scenario, plus a 'refresh' family (association ends without Stop, same address:port associates afresh, bystander association checked); distinct = distinct interleaving signatures (datapath, heartbeat on/off, delay, stop offset in ms, multiset of per-association <trigger, order relative to Stop, release answered?, sessions>)",
